@@ -1,7 +1,7 @@
 package lib
 
 // C10 — containment.  The real servers run as CHILD PROCESSES of the harness (the harness binary
-// re-executed with VERIFH_CHILD set), because a panic in any connection goroutine is process-wide:
+// re-executed with VERIFH_C10_CHILD set), because a panic in any connection goroutine is process-wide:
 // only the exit status / stderr of a separate process shows it.
 //
 // ops (model side: oracle/drv_c10.ml on Model/Server.v):
@@ -49,19 +49,19 @@ import (
 
 // ---------------------------------------------------------------- the child side
 
-// parseAll is the README pattern: a handler whose read callback parses the body with the model type.
-type parseAll struct {
+// c10ParseAll is the README pattern: a handler whose read callback parses the body with the model type.
+type c10ParseAll struct {
 	service.JT808Handler
 	mk func() service.JT808Handler
 }
 
-func (p *parseAll) OnReadExecutionEvent(m *service.Message) {
+func (p *c10ParseAll) OnReadExecutionEvent(m *service.Message) {
 	h := p.mk()
 	_ = h.Parse(m.JTMessage)
 }
-func (p *parseAll) OnWriteExecutionEvent(_ service.Message) {}
+func (p *c10ParseAll) OnWriteExecutionEvent(_ service.Message) {}
 
-func parseAllHandles() map[consts.JT808CommandType]service.Handler {
+func c10ParseAllHandles() map[consts.JT808CommandType]service.Handler {
 	mks := []func() service.JT808Handler{
 		func() service.JT808Handler { return &model.T0x0001{} }, func() service.JT808Handler { return &model.T0x0100{} },
 		func() service.JT808Handler { return &model.T0x0102{} }, func() service.JT808Handler { return &model.T0x0002{} },
@@ -81,19 +81,19 @@ func parseAllHandles() map[consts.JT808CommandType]service.Handler {
 	out := map[consts.JT808CommandType]service.Handler{}
 	for _, mk := range mks {
 		h := mk()
-		out[h.Protocol()] = &parseAll{JT808Handler: h, mk: mk}
+		out[h.Protocol()] = &c10ParseAll{JT808Handler: h, mk: mk}
 	}
 	return out
 }
 
-// childMain: VERIFH_CHILD = "808,<addr>,<pa>" | "att,<addr>,<dialect>"; VERIFH_CHILD_CWD = working directory
-func childMain() {
-	spec := os.Getenv("VERIFH_CHILD")
+// c10ChildMain: VERIFH_C10_CHILD = "808,<addr>,<pa>" | "att,<addr>,<dialect>"; VERIFH_C10_CHILD_CWD = working directory
+func c10ChildMain() {
+	spec := os.Getenv("VERIFH_C10_CHILD")
 	if spec == "" {
 		return
 	}
 	parts := strings.Split(spec, ",")
-	if cwd := os.Getenv("VERIFH_CHILD_CWD"); cwd != "" {
+	if cwd := os.Getenv("VERIFH_C10_CHILD_CWD"); cwd != "" {
 		if err := os.Chdir(cwd); err != nil {
 			os.Exit(3)
 		}
@@ -105,7 +105,7 @@ func childMain() {
 	case "808":
 		opts := []service.Option{service.WithHostPorts(parts[1])}
 		if len(parts) > 2 && parts[2] == "1" {
-			opts = append(opts, service.WithCustomHandleFunc(parseAllHandles))
+			opts = append(opts, service.WithCustomHandleFunc(c10ParseAllHandles))
 		}
 		service.New(opts...).Run()
 	case "att":
@@ -119,19 +119,19 @@ func childMain() {
 }
 
 func init() {
-	childMain()
-	RegisterOp("contain808", func(a []string) string { return containOp("808", a) })
-	RegisterOp("containatt", func(a []string) string { return containOp("att", a) })
+	c10ChildMain()
+	RegisterOp("contain808", func(a []string) string { return c10ContainOp("808", a) })
+	RegisterOp("containatt", func(a []string) string { return c10ContainOp("att", a) })
 }
 
 // ---------------------------------------------------------------- the parent side: child management
 
-type lockedBuf struct {
+type c10LockedBuf struct {
 	mu sync.Mutex
 	b  bytes.Buffer
 }
 
-func (l *lockedBuf) Write(p []byte) (int, error) {
+func (l *c10LockedBuf) Write(p []byte) (int, error) {
 	l.mu.Lock()
 	defer l.mu.Unlock()
 	if l.b.Len() < 1<<20 {
@@ -139,25 +139,25 @@ func (l *lockedBuf) Write(p []byte) (int, error) {
 	}
 	return len(p), nil
 }
-func (l *lockedBuf) String() string { l.mu.Lock(); defer l.mu.Unlock(); return l.b.String() }
+func (l *c10LockedBuf) String() string { l.mu.Lock(); defer l.mu.Unlock(); return l.b.String() }
 
-type Child struct {
+type C10Child struct {
 	Kind   string // "808" | "att"
 	Param  string // pa | dialect
 	Addr   string
 	cmd    *exec.Cmd
-	stderr *lockedBuf
+	stderr *c10LockedBuf
 	done   chan struct{}
 	werr   error
 }
 
 var (
-	children   = map[string]*Child{}
-	childMu    sync.Mutex
-	ContainDir string // working directory for the children (set by cmd/C10; default: next to -out)
+	c10Children   = map[string]*C10Child{}
+	c10ChildMu    sync.Mutex
+	ContainDir string // working directory for the c10Children (set by cmd/C10; default: next to -out)
 )
 
-func containDir() string {
+func c10ContainDir() string {
 	if ContainDir != "" {
 		return ContainDir
 	}
@@ -174,7 +174,7 @@ func containDir() string {
 	return ContainDir
 }
 
-func freeAddr() string {
+func c10FreeAddr() string {
 	l, err := net.Listen("tcp", "127.0.0.1:0")
 	if err != nil {
 		panic(err)
@@ -185,7 +185,7 @@ func freeAddr() string {
 }
 
 // Alive reports whether the child process still runs.
-func (c *Child) Alive() bool {
+func (c *C10Child) Alive() bool {
 	select {
 	case <-c.done:
 		return false
@@ -195,7 +195,7 @@ func (c *Child) Alive() bool {
 }
 
 // Death describes how the child ended: exit status and the first lines of a panic / fatal error.
-func (c *Child) Death() string {
+func (c *C10Child) Death() string {
 	s := c.stderr.String()
 	i := strings.Index(s, "panic:")
 	if j := strings.Index(s, "fatal error:"); j >= 0 && (i < 0 || j < i) {
@@ -212,26 +212,26 @@ func (c *Child) Death() string {
 	return fmt.Sprintf("exit=%v stderr=%s", c.werr, strings.Join(lines, " | "))
 }
 
-func (c *Child) Kill() {
+func (c *C10Child) Kill() {
 	if c.cmd != nil && c.cmd.Process != nil {
 		c.cmd.Process.Kill()
 		<-c.done
 	}
 }
 
-// startChild starts one server process and waits until it accepts connections.
-func startChild(kind, param string) (*Child, error) {
+// c10StartChild starts one server process and waits until it accepts connections.
+func c10StartChild(kind, param string) (*C10Child, error) {
 	exe, err := os.Executable()
 	if err != nil {
 		return nil, err
 	}
 	for attempt := 0; attempt < 5; attempt++ {
-		addr := freeAddr()
-		cwd := filepath.Join(containDir(), fmt.Sprintf("%s-%s-%d", kind, param, time.Now().UnixNano()))
+		addr := c10FreeAddr()
+		cwd := filepath.Join(c10ContainDir(), fmt.Sprintf("%s-%s-%d", kind, param, time.Now().UnixNano()))
 		os.MkdirAll(cwd, 0o755)
-		c := &Child{Kind: kind, Param: param, Addr: addr, stderr: &lockedBuf{}, done: make(chan struct{})}
+		c := &C10Child{Kind: kind, Param: param, Addr: addr, stderr: &c10LockedBuf{}, done: make(chan struct{})}
 		c.cmd = exec.Command(exe)
-		c.cmd.Env = append(os.Environ(), "VERIFH_CHILD="+kind+","+addr+","+param, "VERIFH_CHILD_CWD="+cwd)
+		c.cmd.Env = append(os.Environ(), "VERIFH_C10_CHILD="+kind+","+addr+","+param, "VERIFH_C10_CHILD_CWD="+cwd)
 		c.cmd.Stderr = c.stderr
 		c.cmd.SysProcAttr = &syscall.SysProcAttr{Pdeathsig: syscall.SIGKILL}
 		if err := c.cmd.Start(); err != nil {
@@ -251,35 +251,35 @@ func startChild(kind, param string) (*Child, error) {
 	return nil, errors.New("child server did not come up")
 }
 
-// GetChild returns the running child of that kind (starting or restarting it when needed).
-func GetChild(kind, param string) (*Child, error) {
-	childMu.Lock()
-	defer childMu.Unlock()
+// C10GetChild returns the running child of that kind (starting or restarting it when needed).
+func C10GetChild(kind, param string) (*C10Child, error) {
+	c10ChildMu.Lock()
+	defer c10ChildMu.Unlock()
 	key := kind + "," + param
-	if c, ok := children[key]; ok && c.Alive() {
+	if c, ok := c10Children[key]; ok && c.Alive() {
 		return c, nil
 	}
-	c, err := startChild(kind, param)
+	c, err := c10StartChild(kind, param)
 	if err != nil {
 		return nil, err
 	}
-	children[key] = c
+	c10Children[key] = c
 	return c, nil
 }
 
-// StopChildren kills every child (end of the run).
-func StopChildren() {
-	childMu.Lock()
-	defer childMu.Unlock()
-	for k, c := range children {
+// C10StopChildren kills every child (end of the run).
+func C10StopChildren() {
+	c10ChildMu.Lock()
+	defer c10ChildMu.Unlock()
+	for k, c := range c10Children {
 		c.Kill()
-		delete(children, k)
+		delete(c10Children, k)
 	}
 }
 
 // ---------------------------------------------------------------- a client connection
 
-type cliConn struct {
+type c10Cli struct {
 	c      *net.TCPConn
 	mu     sync.Mutex
 	buf    []byte
@@ -287,12 +287,12 @@ type cliConn struct {
 	rdone  chan struct{}
 }
 
-func dialCli(addr string) (*cliConn, error) {
+func c10Dial(addr string) (*c10Cli, error) {
 	c, err := net.DialTimeout("tcp", addr, 3*time.Second)
 	if err != nil {
 		return nil, err
 	}
-	cc := &cliConn{c: c.(*net.TCPConn), rdone: make(chan struct{})}
+	cc := &c10Cli{c: c.(*net.TCPConn), rdone: make(chan struct{})}
 	cc.c.SetNoDelay(true)
 	go func() {
 		defer close(cc.rdone)
@@ -312,14 +312,14 @@ func dialCli(addr string) (*cliConn, error) {
 	return cc, nil
 }
 
-func (cc *cliConn) snapshot() ([]byte, bool) {
+func (cc *c10Cli) snapshot() ([]byte, bool) {
 	cc.mu.Lock()
 	defer cc.mu.Unlock()
 	return append([]byte(nil), cc.buf...), cc.closed
 }
 
 // waitFor polls until pred(received bytes) holds, the server closed, or the timeout expires.
-func (cc *cliConn) waitFor(pred func([]byte) bool, timeout time.Duration) (data []byte, closed, ok bool) {
+func (cc *c10Cli) waitFor(pred func([]byte) bool, timeout time.Duration) (data []byte, closed, ok bool) {
 	deadline := time.Now().Add(timeout)
 	for {
 		data, closed = cc.snapshot()
@@ -333,7 +333,7 @@ func (cc *cliConn) waitFor(pred func([]byte) bool, timeout time.Duration) (data 
 	}
 }
 
-func (cc *cliConn) close(reset bool) {
+func (cc *c10Cli) close(reset bool) {
 	if reset {
 		cc.c.SetLinger(0)
 	}
@@ -341,14 +341,14 @@ func (cc *cliConn) close(reset bool) {
 	<-cc.rdone
 }
 
-// wholeFrames: the bytes are a sequence of complete frames (at least n of them)
-func wholeFrames(b []byte, n int) bool {
+// c10WholeFrames: the bytes are a sequence of complete frames (at least n of them)
+func c10WholeFrames(b []byte, n int) bool {
 	fs, ok := SplitFrames(b)
 	return ok && len(fs) >= n
 }
 
-// canon808Replies: sorted "id.body" of every frame (platform serial dropped)
-func canon808Replies(b []byte) string {
+// c10Replies808: sorted "id.body" of every frame (platform serial dropped)
+func c10Replies808(b []byte) string {
 	fs, ok := SplitFrames(b)
 	var out []string
 	for _, f := range fs {
@@ -369,8 +369,8 @@ func canon808Replies(b []byte) string {
 	return strings.Join(out, ",")
 }
 
-// probeAnswered: among the frames there is the general response to (serial, id)
-func probeAnswered(b []byte, serial, id uint16) bool {
+// c10ProbeAnswered: among the frames there is the general response to (serial, id)
+func c10ProbeAnswered(b []byte, serial, id uint16) bool {
 	fs, _ := SplitFrames(b)
 	for _, f := range fs {
 		m := jt808.NewJTMessage()
@@ -390,9 +390,9 @@ var (
 	ContainWaitSilence = 250 * time.Millisecond
 )
 
-// expect808: does the real parser, fed the same reads in-process, deliver the probe frame (then its
+// c10Expect808: does the real parser, fed the same reads in-process, deliver the probe frame (then its
 // answer will come and is worth waiting for) or report an error (then the close will come)?
-func expect808(segs [][]byte, probeSerial uint16) (answer, closing bool) {
+func c10Expect808(segs [][]byte, probeSerial uint16) (answer, closing bool) {
 	v := service.NewVerifParser()
 	for i, s := range segs {
 		if len(s) == 0 {
@@ -418,46 +418,46 @@ func expect808(segs [][]byte, probeSerial uint16) (answer, closing bool) {
 	return false, false
 }
 
-// expectAtt: the same for the attachment connection (VerifRun over a pipe, no file handler)
-type nopEvent struct{}
+// c10ExpectAtt: the same for the attachment connection (VerifRun over a pipe, no file handler)
+type c10NopEvent struct{}
 
-func (nopEvent) OnEvent(*attachment.PackageProgress) {}
+func (c10NopEvent) OnEvent(*attachment.PackageProgress) {}
 
-func expectAtt(dialect int, segs [][]byte) (answer bool) {
+func c10ExpectAtt(dialect int, segs [][]byte) (answer bool) {
 	if len(segs) == 0 {
 		return false
 	}
 	var pre [][]byte
 	pre = append(pre, segs[:len(segs)-1]...)
-	r1 := AttRun(dialect, pre, nopEvent{})
-	r2 := AttRun(dialect, segs, nopEvent{})
+	r1 := AttRun(dialect, pre, c10NopEvent{})
+	r2 := AttRun(dialect, segs, c10NopEvent{})
 	return len(r2.Wire) > len(r1.Wire)
 }
 
 // ---------------------------------------------------------------- the op
 
-func containOp(kind string, a []string) string {
+func c10ContainOp(kind string, a []string) string {
 	if len(a) < 1 {
 		return "bad-args"
 	}
 	param := a[0]
-	child, err := GetChild(kind, param)
+	child, err := C10GetChild(kind, param)
 	if err != nil {
 		return "no-child " + err.Error()
 	}
 	dialect := atoi(param)
-	conns := map[int]*cliConn{}
+	conns := map[int]*c10Cli{}
 	sent := map[int][][]byte{}
 	status := map[int]string{}
 	var order []int
 	var g []string
 	acc := "-"
 	fail := ""
-	open := func(k int) *cliConn {
+	open := func(k int) *c10Cli {
 		if c, ok := conns[k]; ok {
 			return c
 		}
-		c, err := dialCli(child.Addr)
+		c, err := c10Dial(child.Addr)
 		if err != nil {
 			fail = "dial:" + strconv.Itoa(k)
 			return nil
@@ -486,7 +486,7 @@ func containOp(kind string, a []string) string {
 				break
 			}
 			c.c.Write(data)
-			d, _, ok := c.waitFor(func(b []byte) bool { return len(b) > gSeen && wholeFrames(b[gSeen:], 1) }, ContainWaitAnswer)
+			d, _, ok := c.waitFor(func(b []byte) bool { return len(b) > gSeen && c10WholeFrames(b[gSeen:], 1) }, ContainWaitAnswer)
 			if !ok {
 				g = append(g, "none")
 			} else {
@@ -502,13 +502,13 @@ func containOp(kind string, a []string) string {
 			c.c.Write(data)
 			time.Sleep(300 * time.Microsecond)
 		case head == "A":
-			c, err := dialCli(child.Addr)
+			c, err := c10Dial(child.Addr)
 			if err != nil {
 				acc = "refused"
 				break
 			}
 			c.c.Write(data)
-			d, _, ok := c.waitFor(func(b []byte) bool { return wholeFrames(b, 1) }, ContainWaitAnswer)
+			d, _, ok := c.waitFor(func(b []byte) bool { return c10WholeFrames(b, 1) }, ContainWaitAnswer)
 			if ok {
 				acc = Hx(d)
 			} else {
@@ -542,30 +542,30 @@ func containOp(kind string, a []string) string {
 			sent[k] = append(sent[k], data)
 			if kind == "808" {
 				_, _, _, pser, _, _ := Parse808(data)
-				answer, closing := expect808(sent[k], pser)
+				answer, closing := c10Expect808(sent[k], pser)
 				c.c.Write(data)
 				wait := ContainWaitSilence
 				if answer || closing {
 					wait = ContainWaitAnswer
 				}
-				d, closed, ok := c.waitFor(func(b []byte) bool { return probeAnswered(b, pser, 0x0002) }, wait)
+				d, closed, ok := c.waitFor(func(b []byte) bool { return c10ProbeAnswered(b, pser, 0x0002) }, wait)
 				switch {
 				case closed:
 					status[k] = "closed"
 				case ok:
-					status[k] = "open:" + canon808Replies(d)
+					status[k] = "open:" + c10Replies808(d)
 				default:
-					status[k] = "quiet:" + canon808Replies(d)
+					status[k] = "quiet:" + c10Replies808(d)
 				}
 			} else {
 				_, _, _, pser, _, _ := Parse808(data)
-				answer := expectAtt(dialect, sent[k])
+				answer := c10ExpectAtt(dialect, sent[k])
 				c.c.Write(data)
 				wait := ContainWaitSilence
 				if answer {
 					wait = ContainWaitAnswer
 				}
-				d, closed, ok := c.waitFor(func(b []byte) bool { return probeAnswered(b, pser, 0x1211) }, wait)
+				d, closed, ok := c.waitFor(func(b []byte) bool { return c10ProbeAnswered(b, pser, 0x1211) }, wait)
 				switch {
 				case closed:
 					status[k] = "closed:" + Hx(d)
@@ -602,8 +602,8 @@ func containOp(kind string, a []string) string {
 	return sb.String()
 }
 
-// LastDeath returns the death notice contained in an answer line ("" when the child survived).
-func LastDeath(ans string) string {
+// C10LastDeath returns the death notice contained in an answer line ("" when the child survived).
+func C10LastDeath(ans string) string {
 	if i := strings.Index(ans, " death="); i >= 0 {
 		return ans[i+7:]
 	}
